@@ -44,9 +44,17 @@ impl Fl for f32 {
 }
 
 #[derive(Clone, Debug)]
-enum Init<F> { Pre(Vec<Vec<F>>), Random, PlusPlus, Para }
+enum Init<F> { Pre(Vec<Vec<F>>), Random, PlusPlus, Para,
+    /// k-means|| fitted inside a one-thread rayon pool (the task split of `sample_subsequent_candidates` is then a
+    /// function of the number of observations, so the model can replay it from the parameter generator's words)
+    Para1 }
 
-struct FitOut<F> { centroids: Vec<Vec<F>>, counts: Vec<F>, inertia: F, predict: Vec<usize>, transform: Vec<F> }
+struct FitOut<F> {
+    centroids: Vec<Vec<F>>, counts: Vec<F>, inertia: F, predict: Vec<usize>, predict1: Vec<usize>, transform: Vec<F>,
+    /// the other call forms (owned matrix, dataset, dataset reference, column-major copy, view into a wider matrix)
+    /// returned something else than `predict(&Array2)` / `transform(&Array2)`
+    forms_differ: Option<String>,
+}
 
 fn arr<F: Fl>(rows: &[Vec<F>]) -> Array2<F> {
     let d = if rows.is_empty() { 0 } else { rows[0].len() };
@@ -64,32 +72,73 @@ fn fit_with<F: Fl, D: Distance<F> + std::fmt::Debug + 'static>(
         Init::Pre(c) => KMeansInit::Precomputed(arr(c)),
         Init::Random => KMeansInit::Random,
         Init::PlusPlus => KMeansInit::KMeansPlusPlus,
-        Init::Para => KMeansInit::KMeansPara,
+        Init::Para | Init::Para1 => KMeansInit::KMeansPara,
     };
     let params = KMeans::params_with(k, rng, dist).max_n_iterations(max_iter).tolerance(tol).n_runs(n_runs).init_method(im);
     let ds = DatasetBase::from(x.clone());
     let model = params.fit(&ds).map_err(|e| format!("{}", e))?;
     let predict = model.predict(q).to_vec();
     let transform = model.transform(q).to_vec();
+    // the single-observation form: PredictInplace<ArrayBase<_, Ix1>, usize>
+    let predict1: Vec<usize> = q.rows().into_iter().map(|row| { let p: usize = model.predict(&row); p }).collect();
+    // the remaining call forms must agree bit for bit with the two above (judged here, not in Coq)
+    let mut forms_differ = None;
+    {
+        let mut note = |name: &str, ok: bool| { if !ok && forms_differ.is_none() { forms_differ = Some(name.to_string()); } };
+        let owned: DatasetBase<Array2<F>, ndarray::Array1<usize>> = model.predict(q.clone());
+        note("predict(Array2)", owned.targets().to_vec() == predict);
+        let dsq = DatasetBase::from(q.clone());
+        let byref: ndarray::Array1<usize> = model.predict(&dsq);
+        note("predict(&DatasetBase)", byref.to_vec() == predict);
+        let byval: DatasetBase<Array2<F>, ndarray::Array1<usize>> = model.predict(dsq);
+        note("predict(DatasetBase)", byval.targets().to_vec() == predict);
+        // column-major copy: rows are strided
+        let mut qf = Array2::<F>::zeros((q.ncols(), q.nrows()));
+        qf.assign(&q.t());
+        let qf = qf.reversed_axes();
+        let pf: ndarray::Array1<usize> = model.predict(&qf);
+        note("predict(column-major)", pf.to_vec() == predict);
+        let tf = model.transform(&qf).to_vec();
+        note("transform(column-major)", tf.iter().zip(&transform).all(|(a, b)| a.bits() == b.bits()) && tf.len() == transform.len());
+        // a view into a wider matrix (row stride larger than the row length)
+        let mut wide = Array2::<F>::zeros((q.nrows(), q.ncols() + 2));
+        wide.slice_mut(ndarray::s![.., 1..q.ncols() + 1]).assign(q);
+        let qv = wide.slice(ndarray::s![.., 1..q.ncols() + 1]);
+        let pv: ndarray::Array1<usize> = model.predict(&qv);
+        note("predict(view)", pv.to_vec() == predict);
+        let tv = model.transform(&qv).to_vec();
+        note("transform(view)", tv.iter().zip(&transform).all(|(a, b)| a.bits() == b.bits()) && tv.len() == transform.len());
+    }
     Ok(FitOut {
         centroids: rows_gen(&model.centroids().view()),
         counts: model.cluster_count().to_vec(),
         inertia: model.inertia(),
         predict,
+        predict1,
         transform,
+        forms_differ,
     })
 }
 
+thread_local! {
+    static POOL1: rayon::ThreadPool = rayon::ThreadPoolBuilder::new().num_threads(1).build().unwrap();
+}
+/// fits of the current dataset run inside the one-thread pool (every other dataset; the assignment step is a
+/// rayon `par_for_each`, its result must not depend on the pool) - k-means|| replay always does
+static SINGLE_POOL: std::sync::atomic::AtomicBool = std::sync::atomic::AtomicBool::new(false);
+
 fn do_fit<F: Fl>(m: Met, x: &Array2<F>, q: &Array2<F>, k: usize, init: &Init<F>, seed: u64, max_iter: u64, tol: F, n_runs: usize) -> Result<FitOut<F>, String> {
     let (x2, q2, init2) = (x.clone(), q.clone(), init.clone());
-    match guarded(move || match m {
+    let one_thread = matches!(init, Init::Para1) || (SINGLE_POOL.load(std::sync::atomic::Ordering::Relaxed) && !matches!(init, Init::Para));
+    let job = move || match guarded(move || match m {
         Met::L1 => fit_with(L1Dist, &x2, &q2, k, &init2, seed, max_iter, tol, n_runs),
         Met::L2 => fit_with(L2Dist, &x2, &q2, k, &init2, seed, max_iter, tol, n_runs),
         Met::Linf => fit_with(LInfDist, &x2, &q2, k, &init2, seed, max_iter, tol, n_runs),
     }) {
         Ok(r) => r,
         Err(p) => Err(format!("PANIC: {}", p)),
-    }
+    };
+    if one_thread { POOL1.with(|p| p.install(job)) } else { job() }
 }
 
 fn gen_data(rng: &mut Sm64, n: usize, d: usize, kind: u64) -> Vec<Vec<f64>> {
@@ -126,18 +175,27 @@ fn rng_words(seed: u64, count: usize) -> Vec<u64> {
     (0..count).map(|_| rng.next_u64()).collect()
 }
 
-enum InitTerm<F> { Given(Vec<Vec<Vec<F>>>), Words(usize, Vec<u64>), Hidden }
+fn note_forms<F: Fl>(f: &FitOut<F>, fails: &mut Vec<(u64, String)>) {
+    if let Some(name) = &f.forms_differ {
+        if !fails.iter().any(|(c, _)| *c == 8192) {
+            fails.push((8192, format!("{} disagrees with predict(&Array2) / transform(&Array2) on the same query", name)));
+        }
+    }
+}
+
+enum InitTerm<F> { Given(Vec<Vec<Vec<F>>>), Words(usize, Vec<u64>), ParaWords(usize, Vec<u64>), Hidden }
 
 fn fit_term<F: Fl>(fuel: u64, tol: F, init: &InitTerm<F>, k: usize, f: &FitOut<F>, q: &[Vec<F>]) -> String {
     let it = match init {
         InitTerm::Given(l) => format!("InitGiven {}", clist(l, |m| F::mat(m))),
         InitTerm::Words(runs, w) => format!("InitPlusPlus {} ({})%N", cn(*runs as u64), clist(w, |v| format!("{}", v))),
+        InitTerm::ParaWords(runs, w) => format!("InitPara1 {} ({})%N", cn(*runs as u64), clist(w, |v| format!("{}", v))),
         InitTerm::Hidden => "InitHidden".to_string(),
     };
     format!(
-        "{{| fc_fuel := {}; fc_tol := {}; fc_init := {}; fc_k := {}; fc_centroids := {}; fc_counts := {}; fc_inertia := {}; fc_query := {}; fc_predict := {}; fc_transform := {} |}}",
+        "{{| fc_fuel := {}; fc_tol := {}; fc_init := {}; fc_k := {}; fc_centroids := {}; fc_counts := {}; fc_inertia := {}; fc_query := {}; fc_predict := {}; fc_predict1 := {}; fc_transform := {} |}}",
         cn(fuel), tol.scalar(), it, cn(k as u64), F::mat(&f.centroids), F::vec(&f.counts), f.inertia.scalar(),
-        F::mat(q), cvecn(&f.predict), F::vec(&f.transform)
+        F::mat(q), cvecn(&f.predict), cvecn(&f.predict1), F::vec(&f.transform)
     )
 }
 
@@ -171,16 +229,25 @@ fn one_dataset<F: Fl>(id: u64, r: &mut Sm64, lim: &Limits, out: &mut Out) {
     }
     let qa = arr(&q);
     let tol = F::of64(*r.pick(&[1e-4, 1e-2, 1e-12, 1.0]) * scale);
-    let stream = r.below(5);
+    let stream = r.below(8);
     let mname = format!("{:?}", m);
     let seed = r.below(1000);
     let mut fits: Vec<String> = Vec::new();
     let mut tags: Vec<String> = vec![format!("metric_{}", mname), format!("kind_{}", kind), format!("scale_{:e}", scale), F::NAME.to_string()];
     if subnormal { tags.push("subnormal_sq_dists".into()); }
     out.bump(&format!("{}_scale_{:e}", F::NAME, scale));
+    let single = id % 2 == 1;
+    SINGLE_POOL.store(single, std::sync::atomic::Ordering::Relaxed);
+    out.bump(if single || stream == 7 { "pool_one_thread" } else { "pool_default" });
     let mut series = 0;
     let mut bbox = true;
     let mut failed: Option<String> = None;
+    // (max_n_iterations, n_runs) of every fit of the case, for the replay description
+    let mut configs: Vec<(u64, usize)> = Vec::new();
+    // Rust-side verdicts: (oracle code, what)
+    let mut rust_fails: Vec<(u64, String)> = Vec::new();
+    // initial centroids of the restarts where the harness knows them (precomputed / replayed random rows)
+    let mut init_desc: Option<Vec<Vec<Vec<f64>>>> = None;
     match stream {
         0 | 1 => {
             // precomputed initial centroids, growing iteration budget
@@ -193,12 +260,14 @@ fn one_dataset<F: Fl>(id: u64, r: &mut Sm64, lim: &Limits, out: &mut Out) {
                 (0..k).map(|_| (0..d).map(|_| F::of64(r.range(-30, 30) as f64 * scale)).collect()).collect()
             };
             tags.push("init_precomputed".into());
+            init_desc = Some(vec![init.iter().map(|c| c.iter().map(|v| v.to64()).collect()).collect()]);
             // the cost comparison is evaluated in floats with a relative slack: meaningless where the squared
             // distances are subnormal (those families are for the bit-exact correspondence)
             if m == Met::L2 && !subnormal { series = 1; }
             for b in 1..=lim.maxbudget {
+                configs.push((b, 1));
                 match do_fit(m, &xa, &qa, k, &Init::Pre(init.clone()), seed, b, tol, 1) {
-                    Ok(f) => fits.push(fit_term(b, tol, &InitTerm::Given(vec![init.clone()]), k, &f, &q)),
+                    Ok(f) => { note_forms(&f, &mut rust_fails); fits.push(fit_term(b, tol, &InitTerm::Given(vec![init.clone()]), k, &f, &q)) }
                     Err(e) => { failed = Some(e); break; }
                 }
             }
@@ -210,8 +279,9 @@ fn one_dataset<F: Fl>(id: u64, r: &mut Sm64, lim: &Limits, out: &mut Out) {
             let b = 1 + r.below(4);
             for runs in 1..=lim.maxruns {
                 let inits = replay_random_inits(&x, k, seed, runs);
+                configs.push((b, runs));
                 match do_fit(m, &xa, &qa, k, &Init::Random, seed, b, tol, runs) {
-                    Ok(f) => fits.push(fit_term(b, tol, &InitTerm::Given(inits), k, &f, &q)),
+                    Ok(f) => { note_forms(&f, &mut rust_fails); fits.push(fit_term(b, tol, &InitTerm::Given(inits), k, &f, &q)) }
                     Err(e) => { failed = Some(e); break; }
                 }
             }
@@ -224,28 +294,104 @@ fn one_dataset<F: Fl>(id: u64, r: &mut Sm64, lim: &Limits, out: &mut Out) {
             let b = 1 + r.below(3);
             for runs in 1..=lim.maxruns {
                 let words = rng_words(seed, k * runs);
+                configs.push((b, runs));
                 match do_fit(m, &xa, &qa, k, &Init::PlusPlus, seed, b, tol, runs) {
-                    Ok(f) => fits.push(fit_term(b, tol, &InitTerm::Words(runs, words), k, &f, &q)),
+                    Ok(f) => { note_forms(&f, &mut rust_fails); fits.push(fit_term(b, tol, &InitTerm::Words(runs, words), k, &f, &q)) }
+                    Err(e) => { failed = Some(e); break; }
+                }
+            }
+        }
+        4 => {
+            // k-means|| in the default (multi-thread) pool: candidates are sampled by per-rayon-task generators
+            // seeded from a shared atomic counter and the split into tasks depends on work stealing, so the initial
+            // centroids are not a function of observable draws -> property oracle only
+            tags.push("init_para".into());
+            let b = 1 + r.below(6);
+            let runs = 1 + r.below(lim.maxruns as u64) as usize;
+            configs.push((b, runs));
+            match do_fit(m, &xa, &qa, k, &Init::Para, seed, b, tol, runs) {
+                Ok(f) => { note_forms(&f, &mut rust_fails); fits.push(fit_term(b, tol, &InitTerm::Hidden, k, &f, &q)) }
+                Err(e) => failed = Some(e),
+            }
+        }
+        5 => {
+            // restarts x budget, precomputed initial centroids: every restart starts from the same centroids, so
+            // n_runs must not matter at all (Properties.v restarts_of_one_init) and every restart has the whole
+            // budget; growing budget -> cost series
+            tags.push("init_precomputed".into());
+            tags.push("restarts_budget".into());
+            let mut idx: Vec<usize> = (0..n).collect();
+            r.shuffle(&mut idx);
+            let init: Vec<Vec<F>> = idx[..k].iter().map(|&i| x[i].clone()).collect();
+            let runs = 2 + r.below(2) as usize;
+            init_desc = Some(vec![init.iter().map(|c| c.iter().map(|v| v.to64()).collect()).collect(); runs]);
+            if m == Met::L2 && !subnormal { series = 1; }
+            for b in 1..=lim.maxbudget {
+                configs.push((b, runs));
+                match do_fit(m, &xa, &qa, k, &Init::Pre(init.clone()), seed, b, tol, runs) {
+                    Ok(f) => {
+                        note_forms(&f, &mut rust_fails);
+                        match do_fit(m, &xa, &qa, k, &Init::Pre(init.clone()), seed, b, tol, 1) {
+                            Ok(f1) => {
+                                let same = f1.centroids.iter().flatten().map(|v| v.bits()).eq(f.centroids.iter().flatten().map(|v| v.bits()))
+                                    && f1.counts.iter().map(|v| v.bits()).eq(f.counts.iter().map(|v| v.bits()))
+                                    && f1.inertia.bits() == f.inertia.bits();
+                                if !same {
+                                    rust_fails.push((4096, format!(
+                                        "precomputed initial centroids, max_n_iterations={}: n_runs={} returns centroids {:?} (inertia {:?}) but n_runs=1 returns {:?} (inertia {:?})",
+                                        b, runs, f.centroids, f.inertia, f1.centroids, f1.inertia)));
+                                }
+                            }
+                            Err(e) => { failed = Some(e); break; }
+                        }
+                        fits.push(fit_term(b, tol, &InitTerm::Given(vec![init.clone(); runs]), k, &f, &q))
+                    }
+                    Err(e) => { failed = Some(e); break; }
+                }
+            }
+        }
+        6 => {
+            // restarts x budget, random initialiser: a fixed number (>= 2) of restarts from one seed, growing budget:
+            // the cost of the returned centroids must not increase (Properties.v restarts_cost_monotone_in_budget)
+            tags.push("init_random".into());
+            tags.push("restarts_budget".into());
+            let runs = 2 + r.below(2) as usize;
+            if m == Met::L2 && !subnormal { series = 1; }
+            let inits = replay_random_inits(&x, k, seed, runs);
+            init_desc = Some(inits.iter().map(|i| i.iter().map(|c| c.iter().map(|v| v.to64()).collect()).collect()).collect());
+            for b in 1..=lim.maxbudget {
+                configs.push((b, runs));
+                match do_fit(m, &xa, &qa, k, &Init::Random, seed, b, tol, runs) {
+                    Ok(f) => { note_forms(&f, &mut rust_fails); fits.push(fit_term(b, tol, &InitTerm::Given(inits.clone()), k, &f, &q)) }
                     Err(e) => { failed = Some(e); break; }
                 }
             }
         }
         _ => {
-            // k-means||: candidates are sampled by per-rayon-task generators seeded from a shared atomic
-            // counter, so the initial centroids are not a function of observable draws -> property oracle only
-            tags.push("init_para".into());
-            let b = 1 + r.below(6);
-            let runs = 1 + r.below(lim.maxruns as u64) as usize;
-            match do_fit(m, &xa, &qa, k, &Init::Para, seed, b, tol, runs) {
-                Ok(f) => fits.push(fit_term(b, tol, &InitTerm::Hidden, k, &f, &q)),
-                Err(e) => failed = Some(e),
+            // k-means|| inside a one-thread rayon pool: the model replays gen_range, the per-task Xoshiro256Plus
+            // generators, the candidate rounds and the weighted k-means++ re-clustering from the raw words of the
+            // parameter generator; growing number of restarts from one seed
+            tags.push("init_para1".into());
+            series = 2;
+            let b = 1 + r.below(3);
+            for runs in 1..=lim.maxruns {
+                // per restart: first index (1 word + rejections), <= 8 round seeds, <= k weighted draws
+                let words = rng_words(seed, runs * (k + 9) + 48);
+                configs.push((b, runs));
+                match do_fit(m, &xa, &qa, k, &Init::Para1, seed, b, tol, runs) {
+                    Ok(f) => { note_forms(&f, &mut rust_fails); fits.push(fit_term(b, tol, &InitTerm::ParaWords(runs, words), k, &f, &q)) }
+                    Err(e) => { failed = Some(e); break; }
+                }
             }
         }
     }
     let x0: Vec<f64> = x[0].iter().map(|v| v.to64()).collect();
     let desc = format!(
-        "{{\"float\": {}, \"n\": {}, \"d\": {}, \"k\": {}, \"metric\": {}, \"kind\": {}, \"stream\": {}, \"seed\": {}, \"tol\": {:e}, \"scale\": {:e}, \"fits\": {}, \"X_first_row\": {:?}}}",
-        jstr(F::NAME), n, d, k, jstr(&mname), kind, stream, seed, tol.to64(), scale, fits.len(), x0
+        "{{\"float\": {}, \"n\": {}, \"d\": {}, \"k\": {}, \"metric\": {}, \"kind\": {}, \"stream\": {}, \"seed\": {}, \"tol\": {:e}, \"scale\": {:e}, \"fits\": {}, \"max_n_iterations_n_runs\": {:?}, \"X_first_row\": {:?}, \"X\": {:?}, \"initial_centroids_per_restart\": {}}}",
+        jstr(F::NAME), n, d, k, jstr(&mname), kind, stream, seed, tol.to64(), scale, fits.len(),
+        configs.iter().map(|c| vec![c.0, c.1 as u64]).collect::<Vec<_>>(), x0,
+        x.iter().map(|row| row.iter().map(|v| v.to64()).collect::<Vec<f64>>()).collect::<Vec<_>>(),
+        match &init_desc { Some(i) => format!("{:?}", i), None => "null".to_string() }
     );
     out.bump(&format!("float_{}", F::NAME));
     out.bump(&format!("stream_{}", stream));
@@ -254,6 +400,9 @@ fn one_dataset<F: Fl>(id: u64, r: &mut Sm64, lim: &Limits, out: &mut Out) {
     out.bump(&format!("k_{}", k));
     out.bump(&format!("n_{}", if n < 10 { "lt10" } else if n < 30 { "10to29" } else { "ge30" }));
     let tagrefs: Vec<&str> = tags.iter().map(|s| s.as_str()).collect();
+    for (code, what) in &rust_fails {
+        out.rust_fail(id, *code, &tagrefs, what, &desc);
+    }
     if let Some(e) = failed {
         // a finite dataset with k <= n must fit: an error or panic is a violation of "has exactly k finite centroids"
         out.rust_fail(id, 1024, &tagrefs, &format!("fit failed: {}", e), &desc);
@@ -284,13 +433,13 @@ fn main() {
     };
     // the binary32 model runs on SpecFloat (about 60 us per operation under vm_compute): small instances only
     let lim32 = Limits {
-        maxn: if thorough { 20 } else { 12 }, maxk: 3, maxd: 3, maxbudget: if thorough { 4 } else { 3 },
-        maxruns: if thorough { 3 } else { 2 }, nquery: 3, scales: &[1.0, 1.0, 1e-4, 3e-3, 1e3, 1e-20],
+        maxn: if thorough { 28 } else { 16 }, maxk: 4, maxd: 4, maxbudget: if thorough { 6 } else { 4 },
+        maxruns: if thorough { 3 } else { 2 }, nquery: 4, scales: &[1.0, 1.0, 1e-4, 3e-3, 1e3, 1e-20, 1e-9, 1e7],
     };
     for id in 0..ndatasets as u64 {
         let mut r = rng.fork();
         // every 3rd dataset is an f32 one (ids are spread over the shards modulo 16, so the slow cases are too)
         if id % 3 == 2 { one_dataset::<f32>(id, &mut r, &lim32, &mut out) } else { one_dataset::<f64>(id, &mut r, &lim64, &mut out) }
     }
-    out.finish("datasets drawn from 5 families (separated blobs, overlapping clouds, integer lattice with duplicates, fewer distinct points than clusters, large offset) x float type (f64, every third f32) x metric x initialiser stream (precomputed from data / arbitrary, random, k-means++, k-means||); a case is non-trivial when k > 1 and the data has > 1 distinct point; distinct = distinct (data, k, stream, float type) hashes");
+    out.finish("datasets drawn from 5 families (separated blobs, overlapping clouds, integer lattice with duplicates, fewer distinct points than clusters, large offset) x float type (f64, every third f32) x metric x stream (precomputed initial centroids from the data / arbitrary with growing budget, random and k-means++ with growing n_runs, k-means|| in the default pool (oracle only), precomputed x n_runs >= 2 x growing budget, random x n_runs >= 2 x growing budget, k-means|| replayed in a one-thread pool with growing n_runs); every fit also answers predict (matrix, single rows and four further call forms) and transform (three layouts) on a query set; a case is non-trivial when k > 1 and the data has > 1 distinct point; distinct = distinct (data, k, stream, float type) hashes");
 }
